@@ -36,7 +36,7 @@ directive @xmany(o: XIn, l: [Int!]) repeatable on {EXEC_LOCS}
 }
 
 fn root_fields_text() -> &'static str {
-    "type XRootFields { xnode: XNode xa: XA xu: XU xargs(i: Int, o: XIn, l: [Int!], ll: [[Int]], e: XEnum, c: XScalar, req: Int!): Int xlist(l: [Int!], o: XIn): [XA!] xstrict(list: [Int!]!, opt: [Int]! = [], deep: [[Int!]]!): Int }"
+    "type XRootFields { xnode: XNode xa: XA xu: XU xargs(i: Int, o: XIn, l: [Int!], ll: [[Int]], e: XEnum, c: XScalar, req: Int!): Int xlist(l: [Int!], o: XIn): [XA!] xstrict(list: [Int!]!, opt: [Int]! = [], deep: [[Int!]]!): Int xwide(w0: Int, w1: Int, w2: Int, w3: Int, w4: Int, w5: Int, w6: Int, w7: Int, w8: Int, w9: Int, w10: Int, w11: Int, w12: Int, w13: Int, w14: Int, w15: Int, w16: Int, w17: Int, w18: Int, w19: Int, w20: Int, w21: Int, w22: Int, w23: Int): Int }"
 }
 
 pub fn fixture() -> &'static Document {
